@@ -465,6 +465,35 @@ func runCase(e *env, ps pathSpec, ks []kind, raw []byte, desc caseDesc, tl *tall
 	postMsgs, postRows, postDump := e.snapshot()
 	accepted := status >= 200 && status < 300
 
+	// items whose acceptability the statement leaves open (kind.Either): if the implementation refuses the request
+	// naming such an item (or names nothing while nothing else is wrong), the item counts as unacceptable for its
+	// Primary reason and the refusal is judged like any other (atomic, structured, lowest index); if the
+	// implementation accepts, the item counts as acceptable and the success is judged in full
+	if !accepted && reqOK && bodyOK {
+		soft := -1
+		if reply.ItemIndex != nil {
+			if r := *reply.ItemIndex; r >= 0 && r < n && r < len(ks) && ks[r].Either && len(offending[r]) == 0 {
+				soft = r
+			}
+		}
+		if soft < 0 && lowest < 0 && adm {
+			for i := 0; i < n && i < len(ks); i++ {
+				if ks[i].Either {
+					soft = i
+					break
+				}
+			}
+		}
+		if soft >= 0 {
+			offending[soft] = []string{ks[soft].Primary}
+			if lowest < 0 || soft < lowest {
+				lowest = soft
+			}
+			expectAccept = false
+			tl.counters["either_items_refused"]++
+		}
+	}
+
 	if len(body) <= 1200 {
 		desc.Request = string(body)
 	} else {
@@ -589,10 +618,14 @@ func runCase(e *env, ps pathSpec, ks []kind, raw []byte, desc caseDesc, tl *tall
 		pos = -1
 	}
 	tl.distinct[fmt.Sprintf("%s|%s@%d/%d|%s|%s", ps.Name, cause, pos, n, e.pre.Name, verdict)] = struct{}{}
-	if tl.codes[cause] == nil {
-		tl.codes[cause] = map[string]struct{}{}
+	codeKey := cause
+	if causeClass == "reject" && lowest < len(ks) && ks[lowest].Class != "" {
+		codeKey = ks[lowest].Class
 	}
-	tl.codes[cause][verdict] = struct{}{}
+	if tl.codes[codeKey] == nil {
+		tl.codes[codeKey] = map[string]struct{}{}
+	}
+	tl.codes[codeKey][verdict] = struct{}{}
 	if len(tl.samples) < 2 && n == 2 && e.pol.Name == policies[0].Name && (lowest == 1 || expectAccept) {
 		tl.samples = append(tl.samples, map[string]any{"case": desc.label(), "request": desc.Request, "status": status, "reply": desc.Reply,
 			"reference":         map[string]any{"accept": expectAccept, "first_unacceptable": lowest, "reasons": reasonsAt(offending, lowest)},
@@ -1313,7 +1346,7 @@ func replayCase(worker int, d caseDesc) ([]finding, error) {
 		return nil, err
 	}
 	defer e.close()
-	all := kindsFor(ps)
+	all := append(kindsFor(ps), hdrKinds(ps)...)
 	var ks []kind
 	var raw []byte
 	switch {
@@ -1403,7 +1436,7 @@ func TestCheck(t *testing.T) {
 	go func() {
 		defer close(schedDone)
 		ts := time.Now()
-		if os.Getenv("VERIF_C15_PART") == "spell" { // development aid: only the spelling part
+		if part := os.Getenv("VERIF_C15_PART"); part == "spell" || part == "hdr" { // development aid: only the spelling / header-byte part
 			return
 		}
 		r.RunJobs(len(schedJobs(r.Thorough())), 12, runner.Pick(r, 4*time.Minute, 12*time.Minute))
@@ -1436,7 +1469,7 @@ func TestCheck(t *testing.T) {
 			}
 		}(w)
 	}
-	if part := os.Getenv("VERIF_C15_PART"); part == "sched" || part == "spell" { // development aid: only the schedule / spelling part
+	if part := os.Getenv("VERIF_C15_PART"); part == "sched" || part == "spell" || part == "hdr" { // development aid: only the schedule / spelling part
 		units = nil
 		r.NotExhaustive("VERIF_C15_PART=" + part + ": the rest of the check was skipped")
 	}
@@ -1451,6 +1484,12 @@ func TestCheck(t *testing.T) {
 	for _, backend := range []string{"sqlite", "memory"} {
 		backend := backend
 		ch <- func(w int) { runProbes(w, backend, c) } // (also in a schedule-only run: the evidence needs evaluations)
+	}
+	for _, job := range hdrJobs(r.Thorough(), deadline, c) { // the header-byte part (hdrbytes_test.go)
+		if units == nil && os.Getenv("VERIF_C15_PART") != "hdr" {
+			break
+		}
+		ch <- job
 	}
 	onlySpell := os.Getenv("VERIF_C15_PART") == "spell"
 	for _, job := range spellJobs(r, deadline, c) { // the spelling part (spell_test.go)
@@ -1547,6 +1586,7 @@ func TestCheck(t *testing.T) {
 		kindCounts = append(kindCounts, fmt.Sprintf("%s: %d kinds (%d core, %d reduced)", ps.Name, all, core, small))
 	}
 	r.Set("alphabet", kindCounts)
+	r.Set("header_byte_alphabet", hdrAlphabet())
 	r.Set("planned_weight", planned)
 	r.Set("rule", "complete product backend{memory,sqlite} x pre-state{"+preNames()+"} (max_depth 3) x policy{"+policyNames()+
 		"} x path{global, scoped ep1 (pull), scoped ep2 (2 deliver targets); reduced alphabet on scoped epdir/epoff/eppoff/unknown endpoint} x batches: "+
@@ -1561,7 +1601,7 @@ func TestCheck(t *testing.T) {
 		"in the shape of a real ingress message, other rows untouched except exact drop_oldest evictions of queued rows, depth <= max_depth, listed by GET /messages; "+
 		"reject => structured 4xx/5xx, row dump (all columns) identical, item_index = lowest unacceptable index. "+
 		"distinct_nontrivial = distinct (path, first unacceptable kind or request/body/queue-full cause, its position / batch size, pre-state, observed status/code) classes"+
-		spellRule+schedRule+"; for the schedule part distinct = (scenario, answers) classes")
+		hdrRule+spellRule+schedRule+"; for the schedule part distinct = (scenario, answers) classes")
 	r.Assume("schedule part: scheduling points are lock / atomic / pooled-connection operations; code between them is thread-local provided it is data-race free (side condition: the free-running -race pass of race_test.go)")
 	r.Assume("schedule part: which item_index an OVERLAPPING request names is not compared (a request that loses a race for an id is refused by the store, which names no item; a request judged item by item during a reload may name a later item); status, code, published count, final rows and the after-request (including its item_index) are")
 	r.Assume("schedule part: error status/code of a refused overlapping publish is recorded, not asserted (a refusal may be duplicate_id or queue_full depending on which check the loser reaches first); asserted is accepted/refused per request and the final rows against every sequential order")
